@@ -531,6 +531,13 @@ class ConnRun:
 
 
 def run_schedule(cfg: dict, schedule: list, seed: int = 0) -> dict:
+    from .simloop import debug_logging
+
+    with debug_logging(bool(cfg.get("debug"))):
+        return _run_schedule(cfg, schedule, seed)
+
+
+def _run_schedule(cfg: dict, schedule: list, seed: int = 0) -> dict:
     """schedule items: ("ev", name, *args) | ("iter", k) | ("idle",) | ("tick",) | ("adv", ms)"""
     r = ConnRun(cfg, seed)
     try:
